@@ -21,38 +21,45 @@ P = {
                  "C13_cookie_readers_agree", "C13_plain_line_plain_for",
                  "C13_F1_pinned_refuted", "C13_F1_pinned_refuted_decision", "C13_F2_pinned_refuted", "C13_F3_pinned_refuted",
                  "C13_F4_pinned_refuted", "C13_F4_pinned_refuted_view", "C13_F6_pinned_refuted", "C13_F7_pinned_refuted",
-                 "C13_F3b_refuted", "C13_F5_refuted", "C13_F5_refuted_handover", "C13_F8_refuted", "C13_F9_refuted",
+                 "C13_F3b_refuted", "C13_F5_refuted", "C13_F5_refuted_handover", "C13_F8_refuted", "C13_F9_refuted", "C13_F11_refuted",
                  "C13_nonvacuous", "C13_nonvacuous_pinned", "C13_nonvacuous_redirect",
                  "C13_deployed_decision_same_url", "C13_F10_refuted"],
     "streams": [{
         "name": "entrypoints", "pkg": "./internal/zzverif/c13", "test": "TestVerifC13",
         "overlay": dict(ASSEMBLY_OVERLAY, **{"internal/zzverif/c13/c13_test.go": "c13/c13_test.go"}),
         "eval_module": "Run.Eval_C13", "check_term": "check_repo",
-        "n_quick": 1200, "n_thorough": 24000,
-        "findings": {3: "C13-F3b", 5: "C13-F5", 8: "C13-F8", 9: "C13-F9"},
+        "n_quick": 1100, "n_thorough": 24000,
+        "findings": {3: "C13-F3b", 5: "C13-F5", 8: "C13-F8", 9: "C13-F9", 11: "C13-F11"},
         "shard": 100,
     }, {
         "name": "deployed", "pkg": "./internal/zzverif/c13", "test": "TestVerifC13Deployed",
         "overlay": dict(ASSEMBLY_OVERLAY, **{"internal/zzverif/c13/c13_test.go": "c13/c13_test.go"}),
         "eval_module": "Run.Eval_C13", "check_term": "check_tp",
-        "n_quick": 400, "n_thorough": 6000, "findings": {10: "C13-F10"}, "shard": 150,
+        "n_quick": 300, "n_thorough": 6000, "findings": {10: "C13-F10"}, "shard": 150,
     }],
-    "rule": "per group of 40 cases one generated rule set of 4-7 rules (path expressions /rK/lit, /rK/:name, /rK/:a/x/:b, /rK/**, "
-            "/rK/*rest, /rK/v1/:name; allow_encoded_slashes unset/off/on/no_decode; optional method constraint; optional cel authorizer and "
-            "step-level `if` conditions `<read> == \"const\"`; 0-3 header/cookie finalizer steps whose templates are constants or echo one "
-            "read, header names may repeat across steps; 3-7 probe reads echoed by a header finalizer), loaded into the three REAL assembled "
-            "applications (decision and proxy handler stacks served in-process, Envoy ext_authz over a loopback gRPC connection); reads = "
-            "method, scheme, host, URL.Path, RawPath, RawQuery, String(), one capture, all captures, Header(name in any casing, Host, "
-            "Content-Type, absent), Headers(), Cookie(name), Body(), client addresses.  Logical requests aimed at a rule (93%) or at none: "
-            "path segments from a pool of plain and percent-encoded values (%20, %41, %2F, %2f, %25, brackets, UTF-8), 4 methods (the method "
-            "constraint is violated on purpose in a share), http/https, 4 hosts, 7 queries, 0-3 header names in random casing with repeated "
-            "lines, an optional Cookie line (plain, quoted, spaces, commas, odd separators, invalid names), optional Content-Type + body "
-            "(json/form/yaml/text/unknown, valid, invalid and empty bodies); in a third of the requests the client itself sends a "
-            "header (any casing, one or two lines) or a cookie under a name the rule's pipeline sets; requests are aimed at the rule's "
-            "conditions (header, cookie, capture, method, scheme, host, query) in 60% so that pipelines run to their end.  The same "
-            "request goes to all three entry points.  Corpus "
-            "(24 cases, the witnesses of C13-F1..F8 and F3b) first.  Non-trivial = a rule matched and its pipeline reads the view in a condition "
-            "or a template; distinct by hash of (rule, request).",
+    "rule": "Stream entrypoints: per group of 40 cases one generated rule set of 4-7 rules (path expressions /rK/lit, /rK/:name, "
+            "/rK/:a/x/:b, /rK/**, /rK/*rest, /rK/v1/:name; allow_encoded_slashes unset/off/on/no_decode; optional route conditions on "
+            "method, scheme and exact host; optional cel authorizer and step-level `if` conditions `<read> == \"const\"`; optional "
+            "on_error redirect handler whose target echoes a read; 0-3 header/cookie finalizer steps whose templates are constants or "
+            "echo one read, header names may repeat across steps, one cookie name that net/http rejects; 3-7 probe reads echoed by a "
+            "header finalizer), loaded into the three REAL assembled applications (decision and proxy handler stacks served "
+            "in-process, the Envoy ext_authz grpc.Server over a loopback gRPC connection); reads = method, scheme, host, URL.Path, "
+            "RawPath, RawQuery, String(), one capture, all captures, Header(name in any casing, Host, Content-Type, absent), Headers(), "
+            "Cookie(name, also in another casing than sent), Body(), client addresses.  Logical requests aimed at a rule (93%) or at "
+            "none: path segments from a pool of plain and percent-encoded values (%20, %41, %2F, %2f, %25, brackets, UTF-8), dot "
+            "segments, '..', '//', '%2e%2E', the former place-holder text; 8 methods incl. a lower-case one (route conditions are "
+            "violated on purpose in a share); http/https; 6 hosts incl. mixed case; 7 queries; 0-3 header names in random casing with "
+            "repeated lines; an optional Cookie line (plain, quoted, spaces, commas, odd separators, invalid names, names in other "
+            "casings); optional Content-Type + body (json/form/yaml/text/unknown, valid, invalid and empty bodies); in a third of the "
+            "requests the client itself sends a header (any casing, one or two lines) or a cookie under a name the rule's pipeline "
+            "sets; requests are aimed at the rule's conditions in 60%.  Per request the Envoy conveyance is drawn: body in `body` "
+            "(Envoy's default) / `raw_body` / both; request target as documented (query inside `path`, `query` empty) or in separate "
+            "fields.  The same request goes to all three entry points.  Corpus (35 cases: witnesses of C13-F1..F9, F11, F3b, of the "
+            "seeded change C13-1 and of the audit's blind spots) first.  Stream deployed: one logical request (method, scheme, host, "
+            "path of 1-3 pool segments, one of 31 queries) sent to a decision service directly and, described by X-Forwarded-Method/"
+            "-Proto/-Host/-Uri from a trusted proxy, to a decision service with trusted_proxies; both echo method and URL parts.  "
+            "Non-trivial = a rule matched and its pipeline reads the view in a condition or a template (stream 1) / the request has a "
+            "query (stream 2); distinct by hash of (rule, request).",
     "anchors": ["internal/handler/requestcontext/request_context.go", "internal/handler/decision/request_context.go",
                 "internal/handler/proxy/request_context.go", "internal/handler/envoyextauth/grpcv3/request_context.go",
                 "internal/handler/envoyextauth/grpcv3/handler.go", "internal/heimdall/context.go",
@@ -79,34 +86,42 @@ P = {
         "the assembly harness (harness/assembly): fx application as in cmd/serve; decision/proxy handler obtained through an overlay "
         "export of newService; the Envoy service is the real gRPC server on a loopback port",
     ],
-    "level_text": "Proof (kernel-checked, no axioms): for every well-formed logical request, every rule lookup function and every "
-                  "pipeline (an arbitrary terminating program that reads the request view - captures, headers, cookies, decoded body, URL "
-                  "parts, method, client addresses - emits upstream headers/cookies and allows or fails), the HTTP decision service, the "
-                  "proxy service and the Envoy ext_authz service (model of the three request contexts, the executor's two-phase use of "
-                  "the view and the three Finalize) reach the same decision, match the same rule, answer every read of the view alike "
-                  "and hand the same headers and cookies over.  For /repo as it is (six findings repaired by fix: commits) the only "
-                  "guards left are three open findings: cookie reading/writing (C13-F5), Headers() as a whole (C13-F8) and blank-padded "
-                  "values of a header added twice (C13-F3b), each with a proved witness that the entry points differ; captures, header "
-                  "names, Host, URL.Path/RawPath/String(), the encoded-slash check, the body and multi-valued headers are unguarded "
-                  "(C13_three_entry_points_agree_repo, C13_repo_guards, C13_repo_guards_fire).  The same theorems hold for every subset "
-                  "of the repairs (record `fixes`), and each repaired finding keeps a _pinned_refuted witness (differs without the "
-                  "repair, agrees with it, same request).  Decision and proxy share one context and agree without any guard.  Lemmas of "
-                  "independent use: Header(n) agrees for ALL names and header multisets; net/http's and grpcv3's cookie readers agree on "
-                  "every plain Cookie line.  The model is tied to the code by sending ~1200 (quick) / 24000 (thorough) generated "
-                  "requests per run to the three real assembled applications loaded with generated rule sets and comparing decision, "
-                  "matched rule, the echoed view and the hand-over with the model inside Coq; the property predicate (three "
-                  "observations equal) is evaluated on the observations.",
-    "level_note": "Trusted: Coq kernel/vm_compute; the correspondence harness incl. the Envoy encoding of a request and the projection "
-                  "of the hand-over (header values as read off the wire: surrounding blanks trimmed, several lines joined with ','); "
-                  "body decoders are oracles; rule lookup is an arbitrary function (C02/C03); CEL/text-template reduced to "
-                  "`read == const` and echo.  FIXED (fix: commits, findings/C13.json `fixed`, evaluator expects the repaired variant "
-                  "`check_repo`, revert of each commit in a scratch worktree => VIOLATION): C13-F1 b2286d8 (Envoy context rebuilt the "
-                  "view: captures lost), F2 7c3e9fc (Header(name) not canonicalised under Envoy), F3 a5ef279 (multi-valued pipeline "
-                  "header: first value vs joined), F4 ae6db4f (escaped path in URL.Path, RawPath empty, allow_encoded_slashes: off never "
-                  "fired under Envoy), F6 06faa19 (Header(\"Host\")), F7 19923cd (Body of a body-less request).  OPEN with guards: F5 "
-                  "(cookies: net/http's reader/sanitiser vs plain split/concat), F8 (Headers() lacks the Host key under Envoy; grpcv3's "
-                  "own unit test pins the map), F3b (blanks around values of a header added twice).  Not covered: X-Forwarded-* on the "
-                  "HTTP side (C09), the upstream URL and header pass-through of the proxy (C15), multi-hop client address lists.",
+    "level_text": "Proof (kernel-checked, no axioms): for every well-formed logical request, every conveyance of it to Envoy (body in "
+                  "`body`/`raw_body`/both; query inside `path` or in its own field), every rule lookup function and every pipeline with "
+                  "its error pipeline (arbitrary terminating programs that read the request view - captures, headers, cookies, decoded "
+                  "body, URL parts, method, client addresses -, emit upstream headers/cookies and allow, fail or redirect), the HTTP "
+                  "decision service, the proxy service and the Envoy ext_authz service (model of the three request contexts, the "
+                  "executor's two-phase use of the view and the three Finalize) reach the same decision incl. the redirect target, match "
+                  "the same rule, answer every read of the view alike and hand the same headers and cookies over - outside the guards of "
+                  "the findings that are open in the tree.  The theorems hold for every subset of the repairs (record `fixes`); for "
+                  "/repo (six findings repaired by fix: commits) the open guards are: a Cookie(n) read whose own parts of the Cookie line "
+                  "are not plain and sanitised cookie values on hand-over (C13-F5), Headers() read as a whole map (C13-F8: the key Host; "
+                  "every other key is proved equal), the body when Envoy conveys it in `body` (C13-F9), a request with a query string "
+                  "when Envoy conveys the target the documented way (C13-F11), blank-padded values of a header added twice (C13-F3b); "
+                  "each open or repaired finding has a proved witness (differs without the repair, agrees with it, same request).  "
+                  "Separately: conveyed through X-Forwarded-* by a trusted proxy (the decision service as deployed) a request gives the "
+                  "same method, scheme, host, path and query as when received directly unless the query is not its own re-encoding "
+                  "(C13-F10).  Lemmas of independent use: Header(n) agrees for ALL names and header multisets; Headers() agree on every "
+                  "key but Host; net/http's and grpcv3's cookie readers agree under a name whenever the parts concerning that name are "
+                  "plain.  The model is tied to the code by sending ~1100 (quick) / 24000 (thorough) generated requests per run to the "
+                  "three real assembled applications loaded with generated rule sets, plus 300 / 6000 requests to two decision services "
+                  "(direct / behind a trusted proxy), and comparing with the model inside Coq; the property predicate (the observations "
+                  "of the entry points are equal) is evaluated on the observations, never on the model.",
+    "level_note": "Trusted: Coq kernel/vm_compute; the correspondence harness incl. the Envoy encoding of a request (lower-case header "
+                  "names, repeated lines joined with ',', cookie lines with '; ', the peer as x-forwarded-for metadata; body and "
+                  "request-target conveyance are drawn per request, see rule) and the projection of the hand-over (header values as "
+                  "read off the wire: surrounding blanks trimmed, several lines joined with ','; a client header that arrives unchanged "
+                  "is pass-through; Envoy header options are applied to the client's headers as Envoy's ext_authz filter would); body "
+                  "decoders are oracles; rule lookup is an arbitrary function (C02/C03), in the run the match is known by construction; "
+                  "CEL/text-template reduced to `read == const` and echo; the model-vs-code comparison looks at allowed/denied, not at "
+                  "the status number of a denial (C12), the property comparison at the exact status.  FIXED (fix: commits, revert of "
+                  "each => VIOLATION): C13-F1 b2286d8, F2 7c3e9fc, F3 a5ef279, F4 ae6db4f, F6 06faa19, F7 19923cd.  OPEN with guards: "
+                  "F5, F8, F3b (no repair), F9 (fixes/C13-F9.diff), F11 (fixes/C13-F11.diff; the driver detects both repairs by "
+                  "sentinel requests), F10 (decision service behind a trusted proxy re-encodes the query; no repair offered).  Not "
+                  "covered (see docs/notes/C13.md, After the audit): several Cookie lines, multi-hop client address lists, URL "
+                  "fragments, www_authenticate and other error handlers than redirect, the default rule, overlapping rules and "
+                  "backtracking, X-Forwarded-* next to pipeline headers and the upstream URL of the proxy (C15), regex/glob host "
+                  "conditions (C03).",
     "assumptions": [
         "a logical request is well-formed (wf_lreqb, checked on every case): header names are tokens, no Host/X-Forwarded-*/Forwarded "
         "line, values without surrounding blanks, at most one Cookie line, path starts with '/' and is validly percent-encoded",
